@@ -44,6 +44,29 @@ def ncases(tier):
     return NCASES[tier]
 
 
+def child_of_late(gt, job, late):
+    """Is the missing job's instance downstream (transitively) of an
+    output that the restart poll reported for an already-removed task?"""
+    p, n, _ = job.split('/')
+    p = int(p)
+    seen = set()
+    todo = [(n, p)]
+    late_ids = {tid for tid, _ in late}
+    while todo:
+        n, p = todo.pop()
+        if (n, p) in seen:
+            continue
+        seen.add((n, p))
+        for ar in wfgen.arrows_at(gt, n, p):
+            for a in wfgen.atoms(ar):
+                q = wfgen.atom_point(a, p)
+                if f'{q}/{a[1]}' in late_ids:
+                    return True
+                if q >= gt['initial']:
+                    todo.append((a[1], q))
+    return False
+
+
 def run_case(ctx, i, rng):
     feat = wfgen.Features(retries=rng.random() < 0.4, max_tasks=5,
                           max_final=4)
@@ -117,6 +140,11 @@ def run_case(ctx, i, rng):
             where = ('during-startup' if r0.get('iterations', 0) == 0
                      else 'mid-run')
             if missing:
+                late = ((r1.get('monitors') or {}).get('ledger') or {}).get(
+                    'late_polled_outputs_on_removed_tasks') or []
+                if late and where == 'mid-run' and all(
+                        child_of_late(gt, m, late) for m in missing):
+                    where = 'poll-result-after-task-removed'
                 ctx.violation(
                     f'C20:work-lost:{where}',
                     f'after a kill at {kind} {at} and restart, jobs '
